@@ -4,6 +4,9 @@ import (
 	"context"
 	"fmt"
 	"os"
+	"strings"
+	"testing"
+	"testing/synctest"
 	"time"
 
 	ipfscluster "github.com/ipfs/ipfs-cluster"
@@ -184,4 +187,28 @@ func (p *Peer) Stop() {
 	p.dht.Close()
 	p.cancel()
 	os.RemoveAll(p.Parts.BaseDir)
+}
+
+// Bubble runs f in a fresh synctest bubble. libp2p's mocknet occasionally
+// leaves stream goroutines blocked for ever after every host was closed (a
+// stream opened while its host was closing); the bubble then ends with
+// synctest's "blocked goroutines remain" panic although f itself completed.
+// That specific panic is absorbed (the goroutines are leaked, nothing else is
+// affected); anything else is re-raised. Returns whether goroutines leaked.
+func Bubble(t *testing.T, f func(t *testing.T)) (leaked bool) {
+	completed := false
+	defer func() {
+		if r := recover(); r != nil {
+			if completed && strings.Contains(fmt.Sprint(r), "blocked goroutines remain") {
+				leaked = true
+				return
+			}
+			panic(r)
+		}
+	}()
+	synctest.Test(t, func(t *testing.T) {
+		f(t)
+		completed = true
+	})
+	return false
 }
